@@ -186,6 +186,16 @@ def make_grid(api, V, E, D=None, style=0):
     return api.Grid(Vv, Ee, Dd)
 
 
+def try_grid(res, api, name, V, E, D=None, style=0):
+    """Grid(...) on an input inside the property's quantifier; an exception is a disagreement with the model"""
+    try:
+        return make_grid(api, V, E, D, style)
+    except Exception as e:  # noqa
+        res.disagree("implementation raises on a grid the model accepts", grid=name, error=repr(e)[:200],
+                     nv=int(np.asarray(V).shape[1]), elements=np.asarray(E).astype(int).T.tolist())
+        return None
+
+
 def _key(V, E):
     return f"{V.shape[1]}:" + ",".join(str(int(x)) for x in np.asarray(E).T.flatten())
 
@@ -320,15 +330,21 @@ def check_topology(b, name, g, V, E, with_children=True):
     res = b.res
     real = real_tables(g)
     if with_children:
-        r = g.refine()
+        try:
+            r = g.refine()
+            bg = g.barycentric_refinement
+        except Exception as e:  # noqa
+            res.disagree("refine / barycentric_refinement raises on a grid the model refines", grid=name,
+                         error=repr(e)[:200], nv=int(V.shape[1]), elements=np.asarray(E).astype(int).T.tolist())
+            with_children = False
+    if with_children:
         real["refine_elems"] = [int(x) for x in r.elements.T.flatten()]
-        bg = g.barycentric_refinement
         real["bary_elems"] = [int(x) for x in bg.elements.T.flatten()]
         real["_refine_nv"] = r.number_of_vertices
         real["_bary_nv"] = bg.number_of_vertices
     Ecopy = np.array(E, dtype=np.int64)
 
-    def h(ans, real=real, name=name):
+    def h(ans, real=real, name=name, with_children=with_children):
         m = parse_all(ans)
         if m is None:
             res.disagree("model rejects a grid the implementation accepts", grid=name, model=ans[:60],
@@ -381,7 +397,11 @@ def check_geometry(b, name, g, V, E):
                 return
     b.add("geom " + gt + " " + vt, h)
 
-    r = g.refine()
+    try:
+        r = g.refine()
+        bg = g.barycentric_refinement
+    except Exception:  # noqa  (reported by check_topology)
+        return
 
     def h2(ans, r=r):
         if not ans.startswith("ok "):
@@ -390,7 +410,6 @@ def check_geometry(b, name, g, V, E):
         vals = [F(x) for x in ans[3:].split()]
         _close(res, "refine_vertices", name, r.vertices.T.flatten(), vals, scale=max(1.0, float(np.max(np.abs(V)))))
     b.add("refineverts " + gt + " " + vt, h2)
-    bg = g.barycentric_refinement
 
     def h3(ans, bg=bg):
         if not ans.startswith("ok "):
@@ -404,7 +423,9 @@ def check_geometry(b, name, g, V, E):
 def check_union(b, api, gridmod, name, parts, rng):
     """parts: list of (V, E, D)"""
     res = b.res
-    grids = [make_grid(api, V, E, D, style=rng.randrange(4)) for V, E, D in parts]
+    grids = [try_grid(res, api, name, V, E, D, style=rng.randrange(4)) for V, E, D in parts]
+    if any(g is None for g in grids):
+        return None
     mode = rng.randrange(3)  # 0: normalize, 1: no normalize, 2: given
     sw = [rng.random() < 0.4 for _ in parts]
     given = [rng.randrange(0, 9) for _ in parts]
@@ -455,7 +476,9 @@ def check_segments(b, api, gridmod, name, V, E, D, segs):
     cols = {tuple(V[:, i]) for i in range(V.shape[1])}
     if len(cols) != V.shape[1]:
         V = V + np.arange(V.shape[1])[None, :] * np.array([[16.0], [0.0], [0.0]])
-    g = make_grid(api, V, E, D)
+    g = try_grid(res, api, name, V, E, D)
+    if g is None:
+        return None
     keep = [j for j in range(E.shape[1]) if int(D[j]) in segs]
     if not keep:
         return None
@@ -520,7 +543,9 @@ def correspondence(ctx):
     # 1. named meshes and their variants: all tables, children, geometry
     for name, V, E in base_grids(ctx):
         for style, (vn, V2, E2) in enumerate(variants(name, V, E, rng)):
-            g = make_grid(api, V2, E2, style=style)
+            g = try_grid(res, api, vn, V2, E2, style=style)
+            if g is None:
+                continue
             check_topology(b, vn, g, V2, E2)
             if E2.shape[1] <= 60 or ctx.thorough:
                 check_geometry(b, vn, g, V2, E2)
@@ -529,7 +554,9 @@ def correspondence(ctx):
     # 2. random soups
     for k in range(ctx.pick(150, 6000)):
         V, E = soup(rng)
-        g = make_grid(api, V, E, style=k)
+        g = try_grid(res, api, f"soup{k}", V, E, style=k)
+        if g is None:
+            continue
         check_topology(b, f"soup{k}", g, V, E)
         if k % 5 == 0:
             check_geometry(b, f"soup{k}", g, V, E)
@@ -540,7 +567,9 @@ def correspondence(ctx):
         E = np.asarray(E, np.int64)
         for sub in mg.subcomplexes(E):
             Es = E[:, list(sub)]
-            g = make_grid(api, V, Es)
+            g = try_grid(res, api, f"{name}{list(sub)}", V, Es)
+            if g is None:
+                continue
             check_topology(b, f"{name}{list(sub)}", g, V, Es, with_children=len(sub) <= 4 or ctx.thorough)
             res.count("subcomplexes")
         b.run()
@@ -810,7 +839,13 @@ def oracle_children(res, name, g, inp, M):
     area, nrm = _areas_normals(g)
     V = np.asarray(g.vertices, float)
     E = np.asarray(g.elements).astype(np.int64)
-    for kind, child, k in (("refine", g.refine(), 4), ("barycentric", g.barycentric_refinement, 6)):
+    children = []
+    for kind, k, make in (("refine", 4, lambda: g.refine()), ("barycentric", 6, lambda: g.barycentric_refinement)):
+        try:
+            children.append((kind, make(), k))
+        except Exception as e:  # noqa
+            return bad(f"{kind}-raises", f"{kind} raises {type(e).__name__} on a valid grid", error=repr(e)[:200])
+    for kind, child, k in children:
         if child.number_of_elements != k * g.number_of_elements:
             return bad(f"{kind}-count", f"{kind}: {child.number_of_elements} children for {g.number_of_elements} elements")
         if not np.array_equal(np.asarray(child.domain_indices), np.repeat(np.asarray(g.domain_indices), k)):
@@ -849,7 +884,10 @@ def oracle_union_segments(res, name, parts, api, gridmod, rng, M):
                            input=dict(parts=[dict(vertices=np.asarray(V).T.tolist(), elements=np.asarray(E).T.tolist(),
                                                   domain_indices=list(map(int, D))) for V, E, D in parts]), **kw)
         return False
-    grids = [make_grid(api, V, E, D) for V, E, D in parts]
+    try:
+        grids = [make_grid(api, V, E, D) for V, E, D in parts]
+    except Exception as e:  # noqa
+        return bad("grid-construction-raises", f"Grid(...) raises {type(e).__name__} on a valid triangle soup")
     for mode in range(3):
         sw = [rng.random() < 0.5 for _ in parts]
         given = [rng.randrange(0, 9) for _ in parts]
@@ -858,7 +896,10 @@ def oracle_union_segments(res, name, parts, api, gridmod, rng, M):
             kw["domain_indices"] = given
         else:
             kw["normalize_domain_indices"] = mode == 0
-        u = gridmod.union(grids, **kw)
+        try:
+            u = gridmod.union(grids, **kw)
+        except Exception as e:  # noqa
+            return bad("union-raises", f"union raises {type(e).__name__}", mode=mode, error=repr(e)[:200])
         ua, un = _areas_normals(u)
         uE = np.asarray(u.elements).astype(np.int64)
         uD = [int(x) for x in u.domain_indices]
@@ -907,7 +948,10 @@ def oracle_union_segments(res, name, parts, api, gridmod, rng, M):
     labels = sorted(set(int(x) for x in D))
     for _ in range(2):
         segs = [x for x in labels if rng.random() < 0.5] or [labels[-1]]
-        s = gridmod.grid_from_segments(g, segs)
+        try:
+            s = gridmod.grid_from_segments(g, segs)
+        except Exception as e:  # noqa
+            return bad("segments-raises", f"grid_from_segments raises {type(e).__name__}", segments=segs, error=repr(e)[:200])
         keep = [j for j in range(g.number_of_elements) if int(g.domain_indices[j]) in segs]
         if s.number_of_elements != len(keep):
             return bad("segments-count", "grid_from_segments: wrong number of elements", segments=segs)
@@ -952,8 +996,13 @@ def oracle(ctx, deep=False):
             cases.append((f"{name}{list(sub)}", V, E[:, list(sub)], len(sub) <= 3))
     for style, (name, V, E, children) in enumerate(cases):
         D = [rng.choice((0, 1, 2, 5)) for _ in range(E.shape[1])]
-        g = make_grid(api, V, E, D, style=style)
         inp = _inp(V, E, D)
+        try:
+            g = make_grid(api, V, E, D, style=style)
+        except Exception as e:  # noqa
+            res.counterexample("grid-construction-raises", f"Grid(...) raises {type(e).__name__} on a valid triangle soup "
+                               f"[grid {name}]", grid=name, input=inp, error=repr(e)[:200])
+            continue
         ok = oracle_topology(res, name, g, gridmod, inp)
         ok = ok and oracle_geometry(res, name, g, inp, M)
         if ok and children and E.shape[1] <= 100:
